@@ -18,6 +18,11 @@ def plan(tier):
         {"kind": "c08", "cfg": lc.cfg(d=2, t=0), "count": n // 2, "maxops": mo},
         {"kind": "c08", "cfg": lc.cfg(d=1, t=0), "count": n // 4, "maxops": mo},
         {"kind": "c08", "cfg": lc.cfg(d=2, t=1, pocca=1, pocma=1, pocs=1, socc=1), "count": n // 2, "maxops": mo},
+        # 'not written' for every trivially default constructible element type, also one that is not is_trivial (kind 3);
+        # 'constructed, never destroyed' for a trivially destructible type with a non-trivial default constructor (kind 2)
+        {"kind": "c08", "cfg": lc.cfg(d=2, t=3), "count": n // 3, "maxops": mo},
+        {"kind": "c08", "cfg": lc.cfg(d=1, t=3), "count": n // 6, "maxops": mo},
+        {"kind": "c08", "cfg": lc.cfg(d=2, t=2), "count": n // 4, "maxops": mo},
     ]
 
 
@@ -33,7 +38,9 @@ def run(tier, seed, replay=None):
              "dimension 0..5 (12% forced 0/1); two or three allocator instances; after every operation the registry/ledger "
              "summaries (alive elements, outstanding blocks (instance, n), per array block identity, validity) are compared "
              "with the model and the registry/ledger are checked for illegal transitions; trivial element type: storage is "
-             "pre-filled with 0xCD so 'not written' is visible; non-trivial = at least 4 operations; distinct by hash",
+             "pre-filled with 0xCD so 'not written' is visible, also for a trivially default constructible type that is not "
+             "is_trivial (user-provided copy) and, the other way round, 'written' for a trivially destructible type with a "
+             "non-trivial default constructor; non-trivial = at least 4 operations; distinct by hash",
         not_exercised=["rank 0 and rank 4 arrays", "serialisation-load (C17 covers it)"],
         assumptions=["histories are in the documented domain (swap of non-propagating unequal allocators excluded)"])
     return res.finish()
